@@ -2761,4 +2761,23 @@ theorem IHeap.history_view : ∀ (calls : List (Nat × ICall)) (h : IHeap), h.wf
     rw [ih _ (IHeap.call_wf h hw j e) i (Nat.lt_of_lt_of_le hi (IHeap.call_objs_length h j e))]
     exact IHeap.call_view_old h hw j e i hi
 
+/-! ### helpers of the semantics theorem -/
+
+theorem composeE_prefix : ∀ (b rest : List Kind) (xs ys : List V), composeE (b ++ rest) xs = .ok ys →
+    ∃ zs, composeE b xs = .ok zs := by
+  intro b
+  induction b with
+  | nil => intro rest xs ys _; exact ⟨xs, rfl⟩
+  | cons k b ih =>
+    intro rest xs ys h
+    simp only [List.cons_append, composeE] at h ⊢
+    obtain ⟨zs, hzs, h⟩ := except_bind_ok h
+    obtain ⟨ws, hws⟩ := ih rest zs ys h
+    exact ⟨ws, by simp [hzs, hws, bind, Except.bind]⟩
+
+theorem det_fin_full (kinds : List Kind) (xs : List V) :
+    det kinds (.fin xs none) xs.length = pipeTr kinds ⟨xs, .eof⟩ := by
+  simp [det, Src.pfx]
+
+
 end Glom.C17
